@@ -30,7 +30,8 @@ from mc.ref import ndn_strict as ns
 PROPERTY = 'C17'
 
 PREFIXES = ['/app/a', '/app/b/c', '/', '/' + 'x' * 253]      # index 2: the root prefix (empty name); index 3: a long component
-ANS_FULL = ['200', '200-nobody', '400', '400-nobody', '403-nobody', '500', 'garbage', 'wrongtype', 'nack', 'silence', 'invalid']
+ANS_FULL = ['200', '200-nobody', '400', '400-nobody', '403-nobody', '500', 'garbage', 'wrongtype', 'nack', 'silence', 'invalid',
+            '201', '100-nobody', '300', '399-nobody', '000']
 ANS_SHORT = ['200', '403-nobody', 'nack', 'silence']
 ANS_TINY = ['200', 'silence', 'nack']
 
@@ -154,7 +155,7 @@ class RegScenario:
         if kind == 'nack':
             self.face.deliver(bytes(enc.make_network_nack(c['wire'], 150)), label=f'ans{k}')
             return
-        if kind.startswith(('200', '400', '403', '500')):
+        if kind[:3].isdigit():
             code = int(kind[:3])
             body = None if kind.endswith('nobody') else prefix
             content = control_response(code, 'OK' if code == 200 else 'error', body)
@@ -559,6 +560,20 @@ def run_decode(mask, rot):
             got = got.value if hasattr(got, 'value') else got
         if got != want:
             viol.append((f'C17|decode|field:{fname}', f'{fname}: encoded {want!r}, decoded {got!r} (mask {mask:#x})'))
+    if not viol:
+        # the next response, without a body, reports nothing of this one; and this result is not changed by decoding another
+        snapshot = {k: (bytes(b''.join(bytes(c) for c in v)) if k == 'name' and v is not None else repr(v)) for k, v in ret.items()}
+        try:
+            nxt = nfd_mgmt.parse_response(ts.tlv(0x65, ts.tlv(0x66, ts.uint(403)) + ts.tlv(0x67, b'no')))
+        except Exception as e:  # noqa
+            return [(f'C17|decode|raises:{type(e).__name__}@{tb_where(e)}', f'parse_response raised {e!r} for a body-less response after mask {mask:#x}')]
+        stale = [f for f, _t, _k in CP_FIELDS if nxt.get(f) is not None]
+        if nxt.get('status_code') != 403 or stale:
+            viol.append(('C17|decode|second-response-carries-first', f'a body-less 403 decoded after the response with mask {mask:#x} reports '
+                                                                     f'status {nxt.get("status_code")} and fields {stale}'))
+        after = {k: (bytes(b''.join(bytes(c) for c in v)) if k == 'name' and v is not None else repr(v)) for k, v in ret.items()}
+        if after != snapshot:
+            viol.append(('C17|decode|earlier-result-changed', f'the result for mask {mask:#x} changed when the next response was decoded'))
     return viol
 
 
